@@ -13,7 +13,7 @@ RULE = (
     "complete product dim x value lattice x argument form; for each case every variant of every conversion "
     "(plain, make_*_compiled(dim), make_*_nd_compiled() through a jitted wrapper and as plain function, "
     "pde.grids.spherical.volume_from_radius) plus the droplet accessors is evaluated; a case is non-trivial "
-    "when the value is positive"
+    "when the value is positive; perturbed classes at every radius of the lattice: sphere formulas for zero amplitudes, homogeneity in the radius otherwise"
 )
 ASSUMPTIONS = [
     "values restricted to the 30-decade lattice; 'for all positive reals' is not decided symbolically",
@@ -163,6 +163,43 @@ def perturbed_setter(ctx, x0):
         ctx.check("C12.setter", not isinstance(got, str) and eq(got, x0, 1e-13) and np.array_equal(dr.amplitudes, amps), {"class": "PerturbedDroplet2D", "amplitudes": amps, "set": x0, "get": got})
 
 
+_UNIT = {}
+
+
+def perturbed_scaling(ctx, x0, d, pos):
+    """perturbed classes: with zero amplitudes the sphere formulas hold; in general size quantities are homogeneous in the radius
+    (volume ~ R^d, surface ~ R^(d-1), exactly 0 for a vanished droplet) - for every radius of the lattice, 0 included"""
+    from droplets.droplets import PerturbedDroplet2D, PerturbedDroplet3D, PerturbedDroplet3DAxisSym
+
+    classes = [(PerturbedDroplet2D, [None, [0.0, 0.0], [0.1, -0.2, 0.15]])] if d == 2 else [(PerturbedDroplet3D, [None, [0.0, 0.0, 0.0], [0.1, 0.0, -0.2]]), (PerturbedDroplet3DAxisSym, [None, [0.0, 0.0], [0.1, -0.2]])]
+    for cls, amp_sets in classes:
+        if cls is PerturbedDroplet3DAxisSym:
+            pos = np.array([0.0, 0.0, pos[2]])  # this class lives on the z axis
+        for amps in amp_sets:
+            a = None if amps is None else np.array(amps)
+            quantities = [q for q in ("volume", "surface_area", "volume_approx", "surface_area_approx") if isinstance(getattr(cls, q, None), property)]
+            got, unit = {}, {}
+            for q in quantities:
+                key = (cls.__name__, str(amps), q)
+                try:
+                    got[q] = float(getattr(cls(pos, x0, 0.1, a), q))
+                    if key not in _UNIT:
+                        _UNIT[key] = float(getattr(cls(pos, 1.0, 0.1, a), q))
+                    ctx.op()
+                except NotImplementedError:
+                    continue
+                except Exception as e:  # noqa
+                    ctx.check("C12.perturbed", False, {"cls": cls.__name__, "amplitudes": amps, "quantity": q, "radius": x0, "exc": repr(e)[:200]})
+                    continue
+                power = d if q.startswith("volume") else d - 1
+                want = _UNIT[key] * x0**power
+                ok = np.isfinite(got[q]) and (got[q] == 0.0 if x0 == 0 else abs(got[q] - want) <= 1e-9 * abs(want))
+                ctx.check("C12.perturbed", bool(ok), {"cls": cls.__name__, "amplitudes": amps, "quantity": q, "radius": x0, "got": got[q], "want_from_unit_radius": want})
+                if amps is None or not any(amps):
+                    ref = vol_ref(x0, d) if q.startswith("volume") else surf_ref(x0, d)
+                    ctx.check("C12.perturbed", bool(abs(got[q] - ref) <= 1e-9 * abs(ref)), {"cls": cls.__name__, "amplitudes": amps, "quantity": q, "radius": x0, "got": got[q], "sphere": ref})
+
+
 def run_case(case, ctx):
     from pde.grids.spherical import volume_from_radius as pde_vr
 
@@ -257,6 +294,8 @@ def run_case(case, ctx):
                 and bool(np.all(np.abs(np.asarray(bb.bounds)[:, 1] - (pos + x0)) <= 4e-15 * (np.abs(pos) + x0))),
                 {"bbox": bb.bounds},
             )
+            if cls is SphericalDroplet and form == "float" and d >= 2:
+                perturbed_scaling(ctx, x0, d, pos)
             fv = cls.from_volume(pos, x0)  # x0 read as a volume
             ctx.op()
             ctx.check("C12.droplet", eq(fv.volume, x0) and np.array_equal(fv.position, pos) and fv.dim == d, {"from_volume": fv.volume, "want": x0})
@@ -292,4 +331,4 @@ def run_case(case, ctx):
 
 
 def expected_positive(tier):
-    return ["C12.formula", "C12.inverse", "C12.derivative", "C12.derivative-fd", "C12.variants-agree", "C12.droplet", "C12.setter", "C12.shape", "factory-order-histories"]
+    return ["C12.formula", "C12.inverse", "C12.derivative", "C12.derivative-fd", "C12.variants-agree", "C12.droplet", "C12.setter", "C12.shape", "factory-order-histories", "C12.perturbed"]
